@@ -85,7 +85,8 @@ def main():
     results = {}
     try:
         for c in checks:
-            rc, o = sh([os.path.join(VERIF, "check"), c, "--tier", tier], cwd=VERIF, timeout=7200)
+            # sensitivity runs only ask "is it caught": the minimisation of the failing case is skipped (VERIF_NO_SHRINK)
+            rc, o = sh([os.path.join(VERIF, "check"), c, "--tier", tier], cwd=VERIF, env=dict(os.environ, VERIF_NO_SHRINK="1"), timeout=7200)
             sigs = [l.strip()[len("signature: "):] for l in o.splitlines() if l.strip().startswith("signature:")]
             results[c] = {"exit": rc, "signatures": sigs[:8]}
     finally:
